@@ -74,6 +74,32 @@ def entry_points(text: str) -> List[Tuple[str, Any]]:
     ]
 
 
+# documents with boolean / number look-alikes on both sides of an intersection: the statement leaves the equality
+# of `&` open, so the specification gives no expected result - but the entry points still have to agree with one another
+LOOKALIKE = [{"a": [1, True, 0, False, 1.0, [1], [True], {"c": 1}, 2], "b": [True, 1, False, [True], {"c": True}, 2.0], "c": 1},
+             {"a": [[0, [False]], {"c": [1]}], "b": [[False, [0]], {"c": [True]}, 3]}]
+
+
+def agreement_only(text: str, eps: List[Tuple[str, Any]], ops: str, rec: Dict[str, Any]) -> List[Tuple[str, Dict[str, Any], str]]:
+    import copy
+
+    for n, base in enumerate(LOOKALIKE):
+        ref = None
+        for fname, mk in (("parsed", lambda: copy.deepcopy(base)), ("json-text", lambda: json.dumps(base)), ("file", lambda: io.StringIO(json.dumps(base)))):
+            for ename, fn in eps:
+                try:
+                    got = ("ok", [canon(tag(v)) for v in fn(mk())])
+                except BaseException as e:  # noqa: BLE001
+                    got = ("raised-" + exc_family(e), [])
+                if ref is None:
+                    ref = (ename, fname, got)
+                want = (ref[2][0], ref[2][1][:1]) if ename.endswith("match") else ref[2]
+                if got != want:
+                    return [(f"{ename}|{fname}|differs-from-{ref[0]}-on-look-alikes|{ops}", {"query": text, "doc": json.dumps(base), "entry": ename, "form": fname,
+                             "reference_entry": ref[0], "reference": str(ref[2])[:300], "observed": str(got)[:300], "tagged": rec}, "entry points disagree")]
+    return []
+
+
 def replay(rec: Dict[str, Any]) -> List[Tuple[str, Dict[str, Any], str]]:
     ops = "".join(r["op"] for r in rec["rest"]) or "simple"
     for tkey in ("text", "text2"):
@@ -100,6 +126,23 @@ def replay(rec: Dict[str, Any]) -> List[Tuple[str, Dict[str, Any], str]]:
                     if disc:
                         return [(f"{ename}|{fname}|{disc}|{ops}", {"query": text, "doc": show(dt["doc"]), "entry": ename, "form": fname,
                                  "expected": [show(v) for v in rec["res"][d]], "observed": str(got)[:300], "tagged": rec}, disc)]
+                    if fname == "json-text" and ename in ("jsonpath.findall", "compiled.finditer"):
+                        # the caller edits what it was given; the same text evaluated again still means the same document
+                        try:
+                            for v in fn(mk()):
+                                if isinstance(v, list):
+                                    v.append("edited-by-caller")
+                                elif isinstance(v, dict):
+                                    v["edited-by-caller"] = True
+                            if [canon(tag(v)) for v in fn(mk())] != want:
+                                return [(f"{ename}|{fname}|second-evaluation-of-the-same-text-differs|{ops}", {"query": text, "doc": show(dt["doc"]), "entry": ename,
+                                         "form": fname, "expected": [show(v) for v in rec["res"][d]], "tagged": rec}, "stale document")]
+                        except BaseException as e:  # noqa: BLE001
+                            return [(f"{ename}|{fname}|second-evaluation-raised-{exc_family(e)}|{ops}", {"query": text, "doc": show(dt["doc"]), "tagged": rec}, str(e))]
+        if tkey == "text":
+            bad = agreement_only(text, eps, ops, rec)
+            if bad:
+                return bad
     return []
 
 
@@ -125,7 +168,8 @@ def run(chk: Check, tier: str, seed: int) -> None:
     chk.exhaustive = True
     chk.rule = ("terminal states of MC_Compound.tla: compound queries with 1-3 (thorough 4) operands from 6 simple queries over | and & in every arrangement, 2 "
                 "spellings x 5 documents x 15 entry points x {parsed, JSON text, file object}; non-trivial = compound with a non-empty result; distinct by text")
-    chk.assumptions += ["intersection universes contain no boolean/number look-alike pairs (the statement leaves the equality of `&` open)"]
+    chk.assumptions += ["intersection universes contain no boolean/number look-alike pairs (the statement leaves the equality of `&` open); on two documents "
+                        "that do contain them the entry points are only required to agree with one another"]
 
 
 def replay_file(case: Dict[str, Any]) -> int:
